@@ -232,7 +232,12 @@ def tlc(module, cfg=None, workers=8, timeout=900, env=None, simulate=None, seed=
     return r
 
 
+SKIP_MC = False       # set by forms.collect(): only the generator part of another property is wanted
+
+
 def tlc_must_pass(module, cfg=None, **kw):
+    if SKIP_MC:
+        return TlcResult()
     """Model-check a design-level configuration. A violated invariant here means the *specification*
     contradicts itself (oracle bug) -> tool error, not a verdict about the code."""
     r = tlc(module, cfg, **kw)
